@@ -250,6 +250,7 @@ impl TCheck for C06T {
             hard_fault: false,
             one_cpu: false,
             post: None,
+            max_scheds: None,
         }
     }
     fn pass_decides(&self) -> String {
